@@ -187,6 +187,16 @@ def _structure_job(args):
             G = rng.standard_normal((n, n, 4)) * 10.0 ** rng.integers(-8, 9)
             Hh = G + oherm(G)
             herm_measure(rec, "random-hermitian", {"structure": "gaussian hermitian", "A": Hh.tolist()}, Hh, spec(Hh))
+    # block-diagonal Hermitian matrices (exactly decoupled blocks: zero sub-columns in the middle of the reduction)
+    for blocks in ((2, 2), (3, 3), (1, 3, 2), (3, 1, 3)):
+        n = sum(blocks)
+        Hb = np.zeros((n, n, 4))
+        o = 0
+        for b in blocks:
+            G = rng.standard_normal((b, b, 4))
+            Hb[o:o + b, o:o + b] = G + oherm(G)
+            o += b
+        herm_measure(rec, "block-diagonal", {"structure": "block diagonal Hermitian", "blocks": list(blocks)}, Hb, spec(Hb))
     # graded spectra (cond 2^10 .. 2^40, mixed signs), exactly representable: A = U diag(lam) U^H with exactly unitary U
     for n in (2, 3, 4, 5):
         for ce in (10, 20, 30, 40):
